@@ -603,6 +603,103 @@ class CopyDrillholeGroup(_H5Scenario):
             return "ok"
 
 
+class CopySurvey(_H5Scenario):
+    """copy the receivers of an airborne time-domain EM survey (symbolic vertices and component values; channels, unit, loop
+    radius and one data component in the EM metadata) to the same or another workspace, with or without children; then add a
+    second component to the COPY: the source's EM metadata, property groups and data stay what they were, live and re-read."""
+    pid = "C12"
+
+    @staticmethod
+    def _em(ent):
+        import copy as pycopy
+        import uuid
+        md = (ent.metadata or {}).get("EM Dataset", {})
+        return {k: pycopy.deepcopy(v) for k, v in md.items() if not isinstance(v, (uuid.UUID, type(None)))}
+
+    def body(self, cx):
+        import warnings
+        from geoh5py.workspace import Workspace
+        from geoh5py.objects import AirborneTEMReceivers, AirborneTEMTransmitters
+        cross, with_children = self.params["cross"], self.params["children"]
+        h5shim.reset()
+        patch.STUBS_USED.add("h5py -> symx.h5shim proxy over the real in-memory HDF5 files (seam B, A-H5)")
+        n = 3
+        ws = Workspace()
+        rx = AirborneTEMReceivers.create(ws, vertices=real_np.c_[real_np.arange(n) * 10.0, real_np.zeros(n), real_np.ones(n)], name="rx")
+        tx = AirborneTEMTransmitters.create(ws, vertices=real_np.c_[real_np.arange(n) * 10.0, real_np.zeros(n), real_np.ones(n)] + 5.0, name="tx")
+        rx.transmitters = tx
+        rx.channels = [1.0, 2.0]
+        rx.unit = "Microseconds (us)"
+        rx.loop_radius = 12.5
+        other = Workspace() if cross else None
+        warnings.simplefilter("ignore")
+        with self.engine(cx) as X:
+            V = [cx.real(f"v{i}{a}") for i in range(n) for a in "xyz"]
+            rx.vertices = mk_array(X, V, (n, 3), "float64")
+            tx.vertices = mk_array(X, [float(10 * i + 5 if a == 0 else 5 + (a == 2)) for i in range(n) for a in range(3)], (n, 3), "float64")
+            for ent in (rx, tx):
+                ent.cells = mk_array(X, [0, 1, 1, 2], (2, 2), "uint32")
+            D = [[cx.real(f"d{c}_{i}") for i in range(n)] for c in range(2)]
+            for row in D:
+                assume_not_ndv(cx, row)
+            rx.add_components_data({"dBdt": {f"ch{c}": {"values": mk_array(X, D[c], (n,), "float64")} for c in range(2)}})
+            if self.params.get("reopen_first"):
+                ruid = rx.uid
+                ws.close()
+                ws = Workspace(ws.h5file)
+                rx = ws.get_entity(ruid)[0]
+            tx = rx.transmitters
+            before, kids_before, pgs_before, em_before = _snapshot(rx), _children_snapshot(rx), _pg_snapshot(rx), self._em(rx)
+            em_tx_before = self._em(tx)
+            cx.prove(em_before.get("Property groups") == ["dBdt"] and em_before.get("Channels") == [1.0, 2.0],
+                     "the source lists its component and channels (scenario sanity)", "copy equals source")
+            try:
+                cp = rx.copy(parent=other, copy_children=with_children)
+            except Exception as e:  # noqa: BLE001
+                cx.prove(False, f"copy of a valid survey is produced (raised {type(e).__name__}: {e})", "copy equals source")
+                return "copy raised"
+            cx.prove(type(cp) is type(rx) and cp is not rx, "the copy is a distinct entity of the source's class", "copy equals source")
+            snap_cp = _snapshot(cp)
+            for k in ("vertices", "name"):
+                cx.prove(_same(snap_cp.get(k), before.get(k)), f"copy vs source: '{k}' equal", "copy equals source")
+            em_cp = self._em(cp)
+            for k, v in em_before.items():
+                if k == "Property groups" and not with_children:
+                    cx.prove(em_cp.get(k, []) == [], "a copy without children lists no data component", "children copied")
+                else:
+                    cx.prove(em_cp.get(k) == v, f"copy vs source: EM metadata '{k}' equal", "copy equals source")
+            if with_children:
+                _prove_same(cx, _children_snapshot(cp), kids_before, "copied children vs source children", "children copied")
+                _prove_same(cx, _pg_snapshot(cp), pgs_before, "property groups of the copy (by data name)", "children copied")
+            else:
+                cx.prove(not _children_snapshot(cp), "no data copied when copy_children is off", "children copied")
+            _prove_same(cx, _snapshot(rx), before, "source after the copy", "source undisturbed")
+            cx.prove(self._em(rx) == em_before, "source EM metadata after the copy", "source undisturbed")
+            # edit the copy: a second component, other channels values stay, new loop radius
+            E = [[float(100 + 10 * c + i) for i in range(n)] for c in range(2)]
+            cp.add_components_data({"dBdz": {f"z{c}": {"values": mk_array(X, E[c], (n,), "float64")} for c in range(2)}})
+            cp.loop_radius = 99.0
+            cx.prove(self._em(rx) == em_before, "source EM metadata after the copy gained a component", "edits do not show through")
+            cx.prove(self._em(rx.transmitters) == em_tx_before, "source transmitters' EM metadata after the copy gained a component",
+                     "edits do not show through")
+            _prove_same(cx, _pg_snapshot(rx), pgs_before, "source property groups after the copy was edited", "edits do not show through")
+            _prove_same(cx, _children_snapshot(rx), kids_before, "source children after the copy was edited", "edits do not show through")
+            rx.unit = "Milliseconds (ms)"      # the source's metadata is written again
+            em_exp = dict(em_before, Unit="Milliseconds (ms)")
+            cx.prove(self._em(rx) == em_exp, "source EM metadata after its own later edit", "edits do not show through")
+            cx.prove("dBdz" in self._em(cp).get("Property groups", []) and self._em(cp).get("Loop radius") == 99.0,
+                     "the edited copy shows its new component and loop radius", "edits do not show through")
+            ruid = rx.uid
+            ws2, rx2 = _reread(ws, ruid)
+            cx.prove(rx2 is not None, "source found again in its file", "stored")
+            if rx2 is not None:
+                cx.prove(self._em(rx2) == em_exp, f"source EM metadata re-read ({self._em(rx2)})", "stored")
+                _prove_same(cx, _pg_snapshot(rx2), pgs_before, "source property groups re-read", "stored")
+                _prove_same(cx, _children_snapshot(rx2), kids_before, "source children re-read", "stored")
+            ws2.close()
+            return "ok"
+
+
 def scenarios(tier, seed):
     S = []
     targets = ["same", "group", "other"]
@@ -620,6 +717,11 @@ def scenarios(tier, seed):
         for cross in (False, True):
             S.append(CopyData(kind=kind, cross=cross))
     S += [CopyGroup(cross=False), CopyGroup(cross=True)]
+    for cross in (False, True):
+        for ch in (True, False):
+            S.append(CopySurvey(cross=cross, children=ch))
+    if tier != "quick":
+        S += [CopySurvey(cross=c_, children=True, reopen_first=True) for c_ in (False, True)]
     S += [CopyDrillholeGroup(cross=True, sizes=[2, 1], target=0), CopyDrillholeGroup(cross=False, sizes=[1, 2], target=1)]
     return S
 
@@ -632,12 +734,12 @@ def main(tier, seed):
                      "text data, value maps, property-group membership",
                      "A-H5: symbolic payloads are kept beside the real HDF5 files by a proxy and handed back unchanged",
                      "float data values differ from the float no-data sentinel (documented exception)"],
-        outside=["survey classes (airborne / ground EM, tipper, direct current) and their partner links (C20)",
+        outside=["survey classes other than airborne time-domain EM receivers (CopySurvey); partner links of surveys (C20)",
                  "editing the copy of a drillhole group (decided under C04, CopyGroupThenEdit)",
                  "masked copies and copies by extent (C07 MaskedCopy, C13)", "geo-images, file-name data, visual parameters",
                  "copy options other than parent / copy_children (clear_cache is exercised under C07)"],
         bounds="one object per class {Points, Curve, Surface, Grid2D 2x3, BlockModel 2x1x2, Octree, DrapeModel, Drillhole} with 2-6 "
                "data values x targets {same parent, another group, another workspace} x children {copied, not copied}; data copies of "
                "3 values x {float, integer, referenced} x {same, other workspace}; one two-level group subtree x {same, other workspace}",
-        expected_outcomes={"CopyObject": {"ok"}, "CopyData": {"ok"}, "CopyGroup": {"ok"}, "CopyDrillholeGroup": {"ok"}},
+        expected_outcomes={"CopyObject": {"ok"}, "CopyData": {"ok"}, "CopyGroup": {"ok"}, "CopyDrillholeGroup": {"ok"}, "CopySurvey": {"ok"}},
     )
